@@ -7,6 +7,7 @@ Obligation: the member is held the same way in both (by value vs. by reference),
 constructor initialises it the same way in both (fresh `()` vs. taken over from the parent level).
 A cache of facts proven under the current level's assumptions that becomes shared across levels in one
 sibling only keeps facts alive after the assumption they rest on was refuted."""
+import re
 from vfacts import strip, walk, is_node, method_name
 
 RULE = 'SIBLING'
@@ -73,6 +74,16 @@ def call_shapes(unit, fn):
         if k == 'UnaryOperator':
             return e.get('op', '') + shape(e['ch'][0], depth + 1)
         return k
+    _shape = shape
+
+    def shape(e, depth=0):
+        # how an element of a container is reached (range variable, iterator, copy in a local) is not part of the
+        # comparison: anything not rooted in a parameter or in this object is 'elem' plus the member finally read
+        r = _shape(e, depth)
+        if re.match(r'(p\d+|this|[A-Z]\w*$|\?)', r):
+            return r
+        m = re.search(r'\.(\w+)$', r)
+        return 'elem.' + m.group(1) if m else 'elem'
     out = []
     for c in fn.calls():
         if c['k'] == 'CXXMemberCallExpr':
